@@ -7,6 +7,7 @@ import (
 	"context"
 	"crypto/sha256"
 	"encoding/binary"
+	"encoding/json"
 	"fmt"
 	"net"
 	"net/netip"
@@ -86,6 +87,7 @@ type simWorld struct {
 
 	onPeerDown func(*simPeer, string)
 	fam        any
+	finalDump  string
 	stopped    bool
 }
 
@@ -291,12 +293,51 @@ type familyImpl struct {
 var families = map[string]*familyImpl{}
 
 // runScript executes one script in a fresh bubble and returns the result.
+// runScript executes a script; the metamorphic "reset" family runs its two variants and compares.
 func runScript(t *testing.T, sc *Script, dump bool) *RunResult {
+	if sc.Family == "reset" && sc.resetExtra().Variant == "" {
+		mk := func(v string) *Script {
+			c := *sc
+			ex := sc.resetExtra()
+			ex.Variant = v
+			b, _ := json.Marshal(ex)
+			c.Extra = b
+			return &c
+		}
+		ra, da := runScriptOnce(t, mk("A"), dump)
+		runtime.GC()
+		rb, db := runScriptOnce(t, mk("B"), false)
+		ra.WallMs += rb.WallMs
+		ra.SimSeconds += rb.SimSeconds
+		ra.Picks += rb.Picks
+		ra.Draws += rb.Draws
+		for k, v := range rb.Probes {
+			ra.Probes[k+"_B"] += v
+		}
+		if rb.HarnessErr != "" && ra.HarnessErr == "" {
+			ra.HarnessErr = "variant B: " + rb.HarnessErr
+		}
+		for _, v := range rb.Violations {
+			v.Subject = "variant B: " + v.Subject
+			ra.Violations = append(ra.Violations, v)
+		}
+		if ra.HarnessErr == "" && len(ra.Violations) == 0 && da != db {
+			ra.Violations = append(ra.Violations, Violation{Prop: "C15", Clause: "reset-differs-from-fresh-evaluation", Subject: "final Loc-RIB / views",
+				Detail: "A = history under the old policy, then policy change + soft reset; B = the same history under the new policy from the start\n(- only in A, + only in B)\n" + diffLines(da, db)})
+		}
+		ra.OK = len(ra.Violations) == 0 && ra.HarnessErr == ""
+		return ra
+	}
+	r, _ := runScriptOnce(t, sc, dump)
+	return r
+}
+
+func runScriptOnce(t *testing.T, sc *Script, dump bool) (*RunResult, string) {
 	res := &RunResult{Seed: sc.Seed, Family: sc.Family, Mode: sc.Mode}
 	impl := families[sc.Family]
 	if impl == nil {
 		res.HarnessErr = "unknown family " + sc.Family
-		return res
+		return res, ""
 	}
 	wall := time.Now()
 	var w *simWorld
@@ -372,7 +413,11 @@ func runScript(t *testing.T, sc *Script, dump bool) *RunResult {
 		}
 	}
 	res.OK = len(res.Violations) == 0 && res.HarnessErr == ""
-	return res
+	fd := ""
+	if w != nil {
+		fd = w.finalDump
+	}
+	return res, fd
 }
 
 var hexAddr = regexp.MustCompile(`0x[0-9a-f]+`)
